@@ -35,7 +35,8 @@ rm $sv/$demo
 pkgs=$(cd $sv && git diff --name-only | xargs -n1 dirname | sort -u | sed 's|^|./|' | paste -sd' ')
 (cd $sv && go test -vet=off -count=1 $pkgs ./x/xibc/... ./x/aggregate/... 2>&1 | grep -v "no test files" | grep -v "^ok" | tail -8) | tee $S/existing_tests_with.txt
 git -C /repo worktree remove --force $sv
-echo "== check $prop against the change"
-git -C /repo apply $S/patch.diff && (cd /verif && ./check $prop --tier quick --no-evidence 2>&1 | grep -v "^KNOWN" | tail -4) | tee $S/check_quick.txt
-git -C /repo checkout -- .
-git -C /repo status --short | head -3
+echo "== check $prop against the change (scratch worktree, never /repo itself)"
+cw=/tmp/seed_check_wt_$prop; git -C /repo worktree prune; [ -d $cw ] && git -C /repo worktree remove --force $cw
+git -C /repo worktree add -q --detach $cw HEAD || exit 1
+git -C $cw apply $S/patch.diff && (cd /verif && VERIF_REPO=$cw ./check $prop --tier quick --no-evidence 2>&1 | grep -v "^KNOWN" | tail -4) | tee $S/check_quick.txt
+git -C /repo worktree remove --force $cw
